@@ -37,8 +37,8 @@ bad = 0
 with cf.ThreadPoolExecutor(a.j) as ex:
     for i, out in ex.map(one, ids):
         lost = [c for c, rc in out.items() if not c.endswith('_err') and rc != want]
-        tag = 'ok  ' if not lost and out else ('LOST' if not a.benign else 'ALARM')
-        if tag != 'ok  ': bad += 1
+        tag = 'ok  ' if not lost and out else ('none' if not out and not a.benign else ('LOST' if not a.benign else 'ALARM'))
+        if tag not in ('ok  ', 'none'): bad += 1
         print(tag, i, out, flush=True)
 print(f'{len(ids)} changes, {bad} with a problem')
 sys.exit(1 if bad else 0)
